@@ -80,6 +80,7 @@ class Cfg:
         self.tid_base = 100        # host thread ids are tid_base + rank and 2 * tid_base + rank
         self.share_streams = 0.0   # probability that a launch of the second host thread goes to a stream of the first
         self.pyfunc = False        # Python frames (cat python_function, as written with with_stack=True) on a thread of their own
+        self.rank_ids = "dense"    # rank numbering: 0..n-1, 1..n, with gaps, or large numbers
         self.__dict__.update(kw)
 
     def to_json(self) -> Dict[str, Any]:
@@ -91,7 +92,7 @@ def draw_cfg(rng: random.Random, **force: Any) -> Cfg:
     c.nranks = rng.choice([1, 1, 1, 2, 2, 3])
     c.grid = rng.choice([1, 1, 2, 5])
     c.nsteps = rng.choice([0, 0, 1, 2, 3, 3, 4])
-    c.step_base = rng.choice([0, 1, 10, 550])
+    c.step_base = rng.choice([0, 1, 8, 9, 10, 98, 550])
     c.zero_rate = rng.choice([0.0, 0.1, 0.2, 0.35])
     c.missing_rate = rng.choice([0.0, 0.0, 0.1, 0.25])
     c.shuffle = rng.random() < 0.6
@@ -109,6 +110,7 @@ def draw_cfg(rng: random.Random, **force: Any) -> Cfg:
     c.tid_base = rng.choice([100] * 12 + [3, 2, 1, 50000])
     c.share_streams = rng.choice([0.0, 0.0, 0.5])
     c.pyfunc = rng.random() < 0.15
+    c.rank_ids = rng.choice(["dense"] * 7 + ["from1", "gaps", "big"])      # how the ranks of the job are numbered
     c.__dict__.update(force)
     return c
 
@@ -493,8 +495,9 @@ def simulate_rank(rng: random.Random, cfg: Cfg, rank: int) -> List[Dict[str, Any
 def gen_case(rng: random.Random, **force: Any) -> Dict[str, Any]:
     cfg = draw_cfg(rng, **force)
     ranks = {}
+    ids = {"dense": [0, 1, 2, 3], "from1": [1, 2, 3, 4], "gaps": [0, 2, 5, 9], "big": [3, 64, 130, 1023]}[cfg.rank_ids]
     for r in range(cfg.nranks):
-        ranks[r] = simulate_rank(rng, cfg, r)
+        ranks[ids[r]] = simulate_rank(rng, cfg, ids[r])
     return {"cfg": cfg.to_json(), "ranks": ranks}
 
 
